@@ -4,6 +4,7 @@
 //!   vharness judge <outdir>                           compare model.txt with impl.txt → judge.json
 mod claims;
 mod common;
+mod issuer;
 mod vb20;
 
 use common::*;
@@ -20,6 +21,7 @@ fn gen(prop: &str, tier: &str, seed: u64, out: &str) {
             claims::gen_c20_claims(&mut em, &mut rng);
         }
         "C14" => vb20::gen_c14(&mut em, &mut rng),
+        "C13" => issuer::gen_c13(&mut em, &mut rng),
         _ => {
             eprintln!("unknown property {}", prop);
             std::process::exit(2);
@@ -66,6 +68,16 @@ fn canon_model_line(l: &str) -> String {
                 Some(s) => out.push_str(&hex::encode((blsful::inner_types::G1Projective::GENERATOR * s).to_compressed())),
                 None => out.push_str("<bad-scalar>"),
             },
+            "g1mul" => {
+                let mut it = arg.splitn(2, ',');
+                let p = it.next().and_then(|h| hex::decode(h).ok()).and_then(|b| <[u8; 48]>::try_from(b).ok())
+                    .and_then(|b| Option::<G1Affine>::from(G1Affine::from_compressed(&b)));
+                let k = it.next().and_then(sc_from_hex);
+                match (p, k) {
+                    (Some(p), Some(k)) => out.push_str(&hex::encode((G1Projective::from(p) * k).to_compressed())),
+                    _ => out.push_str("<bad-g1mul>"),
+                }
+            }
             _ => out.push_str(&tail[..used]),
         }
         rest = &tail[used..];
